@@ -2,7 +2,7 @@
 import base64
 
 from vf import common
-from vf.gen import exprgen, constgen, modgen, seeds, triggergen
+from vf.gen import exprgen, constgen, modgen, scopegen, seeds, triggergen
 
 
 def sources(tier, seed, n_mod=None, n_expr=None, corpus=True):
@@ -17,6 +17,10 @@ def sources(tier, seed, n_mod=None, n_expr=None, corpus=True):
     r.shuffle(trig)
     for c in trig[:(250 if quick else len(trig))]:
         yield {'shape': 'trigger', 'src': c['src']}
+    for c in scopegen.enumerate_cases(max_stmt_depth=2, expr_depth=(0, 1), sample=(400 if quick else 8000), seed=seed + 11):
+        yield {'shape': 'scope', 'src': c['src']}
+    for c in scopegen.sampled_cases(seed + 11, 150 if quick else 3000):
+        yield {'shape': 'scope', 'src': c['src']}
     tri = list(exprgen.triples())
     r.shuffle(tri)
     for c in tri[:n_expr]:
